@@ -29,6 +29,7 @@ DECIDED = [
     'R7: the {{...}} -> :hex rewriting shifts both bounds of every block by the accumulated offset, splices data[:beg] + repl + data[end:] and accumulates len(repl) - (end - beg); encoder / decoder are an inverse pair.',
     'R6: no key class bypasses the child map: ConfigDict item set/delete keep both stores paired (C17.R1).',
     'R8: ConfigNone (payload of null scalars) evaluated: false, equal to None, printed as None, get() is None.',
+    'R9: the walkers (filter_nodes, map_nodes, nodes_with_paths) and EvalContext.evaluate_node normalise their path prefix without type-checking its components: float / bool keys are legal.',
 ]
 UNDECIDED = ['tokenisation of the {{...}} block end (_get_metadata_end);', 'equality of scalar values; non-core YAML types; YAML merge keys (<<) under tagged mappings.']
 TRUSTED = ['shape of yaml/constructor.py BaseConstructor.construct_object of the installed PyYAML (re-verified structurally on each run)']
@@ -521,11 +522,13 @@ def check(repo, run, tier):
     g(ct.pairing, repo, run, 'C01.R6', classes=('ConfigDict',), ops=['__setitem__', '__delitem__', '__init__', 'update'])
     g(ct.pairing, repo, run, 'C01.R6', classes=('ConfigList',), ops=['__init__', 'extend', 'append'])
     g(unitrules.none_scalar_table, repo, run, 'C01.R8')
+    g(unitrules.unchecked_path_prefixes, repo, run, 'C01.R9')
     g.done()
 
 
 def mutants(repo):
     return [
+        Mutant('typed-evaluation-paths', lambda r: in_func(r, 'EvalContext.evaluate_node', "NodePath.get_list_path(prefix, check_types=False)", "NodePath.get_list_path(prefix)"), ['C01.R9']),
         Mutant('null-is-true', lambda r: in_func(r, 'ConfigNone.__bool__', "return False", "return True"), ['C01.R8']),
         Mutant('F19-reverted-full-list-refill', lambda r: in_func(r, 'AwesomeyamlLoader.construct_object', "lambda v: aynode.extend(v[len(aynode):])", "aynode.extend"), ['C01.R1d']),
         Mutant('F1-and-F19-reverted', lambda r: {'awesomeyaml/yaml.py': in_func(r, 'AwesomeyamlLoader.construct_object', "lambda v: aynode.extend(v[len(aynode):])", "aynode.extend")['awesomeyaml/yaml.py'].replace("if not deep and not self.deep_construct and value is not aynode:", "if not deep and value is not aynode:")}, ['C01.R1']),
